@@ -654,6 +654,15 @@ func judgeC06(c C06Case, h *c06Hist) ev.Outcome {
 			lenient["veto-by-stopping-plugin"] = true
 			continue
 		}
+		if vetoAt < 0 && r.Err != "" {
+			// an error nobody (visibly) returned: after a Stop it may stem from the disconnected
+			// plugin (its veto entry set aside, or a transport failure: C07's business)
+			if firstStop != 0 && firstStop < r.End {
+				lenient["error-after-a-stop"] = true
+				continue
+			}
+			return fail("caller of %s %s received error %q although no plugin returned an error for it", evName(r.Event), r.Tag, r.Err)
+		}
 		// completeness
 		for _, p := range h.Plugins {
 			if seen[p.Ord] || !maskHas(p.Mask, r.Event) {
@@ -681,12 +690,6 @@ func judgeC06(c C06Case, h *c06Hist) ev.Outcome {
 			if !strings.Contains(r.Err, v.Veto) {
 				return fail("%s %s was vetoed by plugin %s with %q but its caller received error %q", evName(r.Event), r.Tag, h.Plugins[v.Plugin].Name, v.Veto, r.Err)
 			}
-		} else if r.Err != "" {
-			if firstStop != 0 && firstStop < r.End {
-				lenient["error-after-a-stop"] = true // a disconnected plugin's failure mode is C07's business
-				continue
-			}
-			return fail("caller of %s %s received error %q although no plugin returned an error for it", evName(r.Event), r.Tag, r.Err)
 		}
 		if r.Err == "" {
 			if msg := c06Provenance(h, r, es); msg != "" {
@@ -805,6 +808,14 @@ func c06Provenance(h *c06Hist, r *c06Req, es []c06Entry) string {
 			optional[p.Name] = true
 		} else {
 			want = append(want, p.Name)
+		}
+	}
+	// a plugin being stopped while the request ran may have answered although its log entry
+	// was set aside (logged after Stop began)
+	for _, p := range h.Plugins {
+		if c06State(p, r) == stStopping && maskHas(p.Mask, r.Event) && byName[p.Name] == nil {
+			byName[p.Name] = p
+			optional[p.Name] = true
 		}
 	}
 	where := fmt.Sprintf("response to %s %s (invoked: %s)", evName(r.Event), r.Tag, c06Names(h, es))
